@@ -559,7 +559,7 @@ pub fn run(run: &mut Run) {
          (proptest), all 8-byte wire forms D.D[D]L[D[D]] sent through a VER frame (complete), all ordered pairs and sampled \
          triples from a pool of parsed versions for the order axioms. Oracles: no panic; finite => print/re-parse equal; \
          ASCII-lowercase and -uppercase spellings parse alike; cmp == reference lexicographic (number, letter, revision-or-0), \
-         antisymmetric, transitive, Equal <=> ==. Non-trivial = the string parses successfully."
+         antisymmetric, transitive, Equal <=> ==; a parse right after another parse (digit runs of 1..1024 characters, non-ASCII numerals) must give what a fresh thread gives. Non-trivial = the string parses successfully."
     );
     run.assumptions = vec!["reference order: f32 partial_cmp on the number, char order on the letter, usize order on revision-or-0".into()];
     let total: u64 = (0..=maxlen).map(|k| 10u64.pow(k)).sum();
